@@ -8,7 +8,9 @@ Families (all on the real InotifyObserver / kernel under the deterministic sched
   C  deletion of the watched root: exactly one DirDeleted(root), emitter stops (P_C07_RootDeletedOnce, ...);
   D  transient failures: the n-th inotify_add_watch fails (ENOENT / ENOSPC) between a notification and the library's
      follow-up call, for every n of short directory-creating histories;
-  E  stop() racing with the emitter thread (schedules of a tiny history)."""
+  E  stop() racing with the emitter thread (schedules of a tiny history);
+  F  the polling emitter (PollingObserverVFS whose stat / listdir are yield points) with the tree changing under its
+     snapshot walk: no uncaught exception, and a probe after the history is reported by a later poll."""
 import os
 import sys
 
@@ -110,7 +112,24 @@ def run(c):
         cases.append((params, ("pct", c.seed * 7927 + k, 2)))
     recs = pe.run_cases(c, cases, "E: stop() racing with the emitter thread")
     pe.validate(c, "C07", recs)
-    c.cov["rule"] = ("families A-E of the module docstring; distinct = distinct black-box traces; every uncaught exception in a "
+    # ---- F: the polling emitter, with the tree changing under its snapshot walk
+    cases = []
+    nF = 600 if c.thorough else 80
+    for k in range(nF):
+        seed = c.seed * 1000003 + 777001 + k
+        hist = unpaced_history(seed, 12 + (k % 3) * 6)
+        ops = []
+        for i, op in enumerate(hist["ops"]):
+            if op[0] == "drain":
+                continue
+            ops.append(op)
+            if i % 3 == 0:
+                ops.append(["poll"])
+        params = dict(hist, ops=ops, recursive=(k % 3 != 2), paced=False, final_probe=True, observer="pollingvfs")
+        cases.append((params, ("random", seed, 0.5)))
+    recs = pe.run_cases(c, cases, "F: polling emitter, tree changing under the snapshot walk")
+    pe.validate(c, "C07", recs)
+    c.cov["rule"] = ("families A-F of the module docstring; distinct = distinct black-box traces; every uncaught exception in a "
                      "library thread is a trace line")
     c.assumptions += ["fault directives at the ctypes boundary stand for entries vanishing / limits hit between a notification "
                       "and the library's follow-up inotify_add_watch"]
